@@ -70,3 +70,6 @@ Definition tgt_returned (tg : target) (s : state) : Prop :=
   | Some (PAns t _) => exists ta, aget t (s_ans s) = Some ta /\ a_ready ta = true
   | _ => True
   end.
+
+Fixpoint seqZ (k : Z) (n : nat) : list Z := match n with O => [] | S m => k :: seqZ (k + 1) m end.
+Definition tagz (ans : list (Z * answer)) (id : Z) : Z := match aget id ans with Some a => a_tag a | None => 0 end.
